@@ -434,3 +434,10 @@ V('mt8-neutral', ['C11', 'C10'], MP,
   "        cleaned = [t for t in out\n                    if type(t) not in (defs.ActionToken, defs.VoidToken)]\n        return cleaned, tok", [])
 V('th4-last-member', ['C16'], GH,
   "        if not regions or h.beglin >= max(h.endlin for h in regions[-1]):", "        if not regions or h.beglin >= regions[-1][-1].endlin:", 'TH4')
+
+V('pg1-no-next', ['C07'], P,
+  "                out.append(defs.SpaceToken(tok.pos, ' '))\n                buf.next()\n                self.parse_newline_option(buf, True)\n                continue",
+  "                out.append(defs.SpaceToken(tok.pos, ' '))\n                continue", 'PG1')
+V('pg1-math-no-next', ['C07'], MP,
+  "                if tok.txt in parms.math_text_macros:\n                    buf.next()\n                    out += parser.expand_sequence(\n                                        parser.arg_buffer(buf, tok.pos))\n                    continue",
+  "                if tok.txt in parms.math_text_macros:\n                    out.append(defs.MathSpaceToken(tok.pos, ' '))\n                    continue", 'PG1')
